@@ -13,3 +13,20 @@ package types
 //@   modifies nothing
 //@   ensures [cat] extEq(bytes(result), cat(bytes(global(UnstakingValidatorsKey)), timeKey(unixNano(unstakingTime)))) && bytes(result) == cat(bytes(global(UnstakingValidatorsKey)), timeKey(unixNano(unstakingTime)))
 //@   ensures [fresh] result != nil && fresh(result)
+
+// ---- C22: what a node reports to the consensus engine -----------------------------------------
+// consensus power: staked (status 2) and not jailed => stake / 10^6, otherwise 0
+//@ func (Validator).ConsensusPower
+//@   props C22
+//@   modifies bigv
+//@   ensures [power] result == ite(v.Status == 2 && !v.Jailed, go_div(old(bigv[v.StakedTokens.i]), 1000000), 0)
+//@   ensures [bigv-kept] forall p int {bigv[p]} :: isold(p) ==> bigv[p] == old(bigv[p])
+//@ func (Validator).ABCIValidatorUpdate
+//@   props C22
+//@   modifies bigv
+//@   ensures [current-power] result.Power == ite(v.Status == 2 && !v.Jailed, go_div(old(bigv[v.StakedTokens.i]), 1000000), 0)
+//@   ensures [bigv-kept] forall p int {bigv[p]} :: isold(p) ==> bigv[p] == old(bigv[p])
+//@ func (Validator).ABCIValidatorZeroUpdate
+//@   props C22
+//@   modifies nothing
+//@   ensures [zero-power] result.Power == 0
